@@ -4842,9 +4842,11 @@ def _form_to_layout(
         array_tags = numpy.asarray(tags)
         if len(array_tags) != length:
             array_tags = array_tags[:length]
+            tags = _index_form_to_index[form.tags](array_tags)
         array_index = numpy.asarray(index)
         if len(array_index) != length:
             array_index = array_index[:length]
+            index = _index_form_to_index[form.index](array_index)
 
         contents = []
         for i, content_form in enumerate(form.contents):
